@@ -97,6 +97,8 @@ pub enum Mode {
     Alias,
     /// the start history lives in an included file
     Include,
+    /// the plain rendering with CRLF line ends
+    Crlf,
 }
 
 pub struct Case {
@@ -113,7 +115,7 @@ pub fn build(mode: Mode, hist: &[Txn], txn: &Txn) -> Case {
     let root = oka::ROOT.to_string();
     let hist_has_assert_after_omitted = hist.iter().any(|t| rl::omitted_then_constraint_same_account(t) == Some("assert"));
     match mode {
-        Mode::Plain | Mode::Alias => {
+        Mode::Plain | Mode::Alias | Mode::Crlf => {
             let header = if mode == Mode::Alias { "account A\n  alias a\n  note the main account\n  alias a2\n\naccount B\n  alias b b\n\n".to_string() } else { String::new() };
             let mut all: Vec<Txn> = hist.to_vec();
             all.push(txn.clone());
@@ -131,7 +133,8 @@ pub fn build(mode: Mode, hist: &[Txn], txn: &Txn) -> Case {
                 }
             });
             let (f, l) = *r.txn_lines.last().unwrap();
-            Case { desc: r.text.clone(), files: vec![(root, r.text)], txn_first: f, txn_last: l, posting_lines: r.posting_lines.last().unwrap().clone(), hist_has_assert_after_omitted }
+            let text = if mode == Mode::Crlf { r.text.replace('\n', "\r\n") } else { r.text.clone() };
+            Case { desc: r.text.clone(), files: vec![(root, text)], txn_first: f, txn_last: l, posting_lines: r.posting_lines.last().unwrap().clone(), hist_has_assert_after_omitted }
         }
         Mode::Include => {
             let h = rl::render("", hist, &|_, _, a| a.to_string());
@@ -237,7 +240,7 @@ pub fn enumerate_depth1(ctx: &mut Ctx, relevant: &dyn Fn(&Txn) -> bool, judge: &
         let n_hist = hists[hi].len();
         ctx.case(|| format!("[mode {:?}]\n{}", mode, case.desc), || judge(&case, st, &txn, n_hist));
     };
-    for mode in [Mode::Plain, Mode::Alias, Mode::Include] {
+    for mode in [Mode::Plain, Mode::Alias, Mode::Include, Mode::Crlf] {
         for hi in 0..hists.len() {
             for a in &full {
                 emit(ctx, mode, hi, vec![a.clone()]);
